@@ -567,7 +567,7 @@ func (g *FnGen) makeSlice(i *ssa.MakeSlice) {
 	el := i.Type().Underlying().(*types.Slice).Elem()
 	fam, sort := g.elemFam(el)
 	h := g.heapGet(g.cur, fam, sort)
-	g.heapSet(g.cur, fam, fmt.Sprintf("(store %s %s ((as const (Array %s %s)) %s))", h, ref, g.idx(), g.sortOf(el), g.zero(el).T))
+	g.heapSet(g.cur, fam, fmt.Sprintf("(store %s %s %s)", h, ref, g.constArray(el)))
 	g.define(i, fmt.Sprintf("(mk-slice %s %s %s %s)", ref, z, n, c), "Slice")
 }
 
